@@ -1,1 +1,69 @@
+(** C15 — property theorems (statements only; proofs are in Proofs_C15.v). *)
+From Coq Require Import ZArith List.
+From AwkV Require Import Base Layout Valid.
 From AwkJson Require Import Json Proofs_C15.
+Import ListNotations.
+Open Scope Z_scope.
+
+(* the decimal printer and the digit reader are inverse (unbounded integers) *)
+Theorem dec_roundtrip : forall n rest, 0 <= n -> no_digit_head rest ->
+  read_digits (dec_nat n ++ rest) 0 0 = (n, zlen (dec_nat n), rest).
+Proof. exact dec_nat_read. Qed.
+Print Assumptions dec_roundtrip.
+
+(* unescaping inverts escaping for every byte string (quote, backslash, \b \f \n \r \t, \u00XX, raw bytes >= 0x20) *)
+Theorem string_roundtrip : forall s r, Forall (fun c => 0 <= c) s ->
+  lex_str (flat_map esc_byte s ++ 34 :: r) = SOk s r.
+Proof. exact lex_str_render. Qed.
+Print Assumptions string_roundtrip.
+
+(* (a) every event sequence emitted by to_json is well-formed; no validity hypothesis is needed,
+   so this is stronger than the statement with [Valid None c] *)
+Theorem events_wellformed : forall o c evs, tojson_events o c = Ok evs -> wf evs = true.
+Proof. exact events_wellformed_strong. Qed.
+Print Assumptions events_wellformed.
+
+(* (c) the reader inverts the compact writer: int64 integers, integer-valued doubles up to 2^53, booleans,
+   null, byte strings and keys, arbitrary nesting *)
+Theorem parse_render : forall evs, wf evs = true -> printable evs = true ->
+  parse (render evs) = Ok (evs, []).
+Proof. exact parse_render_lemma. Qed.
+Print Assumptions parse_render.
+
+(* ... also after leading whitespace and before any following text that cannot extend a number
+   (kParseStopWhenDoneFlag) *)
+Theorem parse_render_ws : forall ws evs rest, wf evs = true -> printable evs = true -> all_ws ws -> num_safe rest ->
+  parse (ws ++ render evs ++ rest) = Ok (evs, rest).
+Proof. exact parse_render_ws_lemma. Qed.
+Print Assumptions parse_render_ws.
+
+(* (d) k documents separated by whitespace give k entries, in order (events as seen after Handler) *)
+Theorem concat_docs : forall o w0 dws, all_ws w0 -> Forall doc_ok dws -> seps_ok dws ->
+  do_parse o (w0 ++ docs_text dws) = JDocs (map (fun dw => map (handler o) (fst dw)) dws).
+Proof. exact concat_docs_lemma. Qed.
+Print Assumptions concat_docs.
+
+(* (b) on the fragment frag15 (1-d numeric NumpyArray, ListOffset/List/Regular, Indexed, IndexedOption,
+   ByteMasked, BitMasked, Unmasked, Record incl. tuples, Empty), for uint64 data below 2^63:
+   the events of to_json fold back into to_list up to the documented rendering jv.
+   Full statement (not proved): the same for every c with [Valid None c], i.e. also strings/bytestrings
+   (Par), UnionArray and n-d NumpyArray. *)
+Theorem tojson_value_partial : forall o c vs, frag15 c = true -> u64ok c = true -> to_list c = Ok vs ->
+  exists evs, tojson_events o c = Ok evs /\ json_value evs = Ok (VList (map (jv o) vs), []).
+Proof. exact tojson_value_frag. Qed.
+Print Assumptions tojson_value_partial.
+
+(* (e) truncation: no strict prefix of the text of an array or object parses (root scalars are excluded by
+   necessity: "12" is a valid prefix of "123"; that is the only reason for the suffix _partial) *)
+Theorem truncation_errors_partial : forall evs p s, wf evs = true -> printable evs = true ->
+  (exists t, evs = ESA :: t \/ evs = ESO :: t) ->
+  render evs = p ++ s -> s <> [] -> forall res, parse p <> Ok res.
+Proof. exact truncation_lemma. Qed.
+Print Assumptions truncation_errors_partial.
+
+(* to_json followed by from_json, at the event level: one document, the same events (after Handler) *)
+Theorem roundtrip_events : forall o c evs, tojson_events o c = Ok evs -> printable evs = true ->
+  do_parse o (render evs) = JDocs [map (handler o) evs] /\
+  unwrap [map (handler o) evs] = One (map (handler o) evs).
+Proof. exact roundtrip_events_lemma. Qed.
+Print Assumptions roundtrip_events.
